@@ -98,6 +98,14 @@ func (c *Ctx) bracketSites(fr *FuncRef) []*srSite {
 					}
 					return true
 				})
+				// defer c.setMode(prev): a deferred setter given the saved value
+				if !restored && len(x.Call.Args) == 1 && isRestore(x.Call.Args[0]) {
+					if sel, ok := ast.Unparen(x.Call.Fun).(*ast.SelectorExpr); ok {
+						if i := lastDot(p.loc); i > 0 && types.ExprString(ast.Unparen(sel.X)) == p.loc[:i] {
+							restored = true
+						}
+					}
+				}
 				if restored {
 					site.restores++
 					return []int{3}, true // 3: restore guaranteed by defer
